@@ -43,17 +43,51 @@ _STATE: dict = {}          # set in the parent before forking: module directory,
 # rendering a batch of programs into real modules
 # ---------------------------------------------------------------------------------------------------
 def prog_key(p: dict) -> str:
-    return hashlib.sha1(json.dumps([p["params"], p["body"]], sort_keys=True).encode()).hexdigest()[:16]
+    return hashlib.sha1(json.dumps([p["params"], p["body"], p.get("smode", "plain")], sort_keys=True).encode()).hexdigest()[:16]
 
 
 def style_of(p: dict) -> dict:
     """Rendering variation (how calls / constants are reached), a deterministic function of the program."""
     h = int(p["key"], 16)
+    if p.get("smode", "plain") != "plain":      # names must go through the function's scopes, not through c06lib.<name>
+        return {"call": "bare", "const": "bare"}
     return {"call": "mod" if (h & 1) and p["calls"] else "bare", "const": "mod" if (h & 2) and p["consts"] else "bare"}
+
+
+ALTMOD = "c06alt"
+WORKERS = 8            # TLC workers and replay processes (the machine is shared)
+
+
+def write_alt_modules(d: Path, alt: dict) -> None:
+    """The inner bindings (Translate.tla: AltTab) as a real module: every name under <name>_alt and under <name>."""
+    fns, cs = {}, {}
+    for n, e in alt.items():
+        for nm in (n + "_alt", n):
+            if e["k"] == "const":
+                cs[nm] = render.from_json_value(e["v"])
+            else:
+                fns[nm] = {"params": e["params"], "body": e["body"], "defs": e.get("defs", [])}
+    render.write_module(d, ALTMOD, render.module_src(fns, cs))
+    render.write_module(d, ALTMOD + "x", render.module_src(fns, cs, exact=True))
+
+
+def scoped_source(p: dict, name: str, style: Style, altmod: str) -> str:
+    """Source of a program whose non-local names are bound by function-level imports and / or closure cells."""
+    h = int(p["key"], 16)
+    prelude = [f"from {altmod} import {n}_alt as {n}" if (h >> 3) & 1 else f"from {altmod} import {n}"
+               for n in sorted(p["imports"])]
+    src = render.fn_src(name, p["params"], p["body"], style, prelude=prelude)
+    cells = sorted(p["cells"])
+    if not cells:
+        return src
+    inner = "\n".join("    " + ln if ln else ln for ln in src.rstrip("\n").split("\n"))
+    binds = "\n".join(f"    {n} = {ALTMOD}.{n}_alt" for n in cells)
+    return f"def _make_{name}():\n{binds}\n\n{inner}\n\n    return {name}\n\n\n{name} = _make_{name}()\n"
 
 
 def render_all(ctx: Ctx, progs: list[dict], lib: dict, consts: dict) -> None:
     d = ctx.work / "mods"
+    write_alt_modules(d, _STATE.get("alt") or {})
     libfns = {n: {"params": f["params"], "body": f["body"], "defs": f.get("defs", [])} for n, f in lib.items()}
     render.write_module(d, LIBMOD, render.module_src(libfns, consts))
     render.write_module(d, LIBMOD + "x", render.module_src(libfns, consts, exact=True))
@@ -72,11 +106,15 @@ def render_all(ctx: Ctx, progs: list[dict], lib: dict, consts: dict) -> None:
             fns[name] = {"params": p["params"], "body": p["body"]}
             styles[name] = Style(call_prefix=LIBMOD + "." if st["call"] == "mod" else "",
                                  const_prefix=LIBMOD + "." if st["const"] == "mod" else "")
+            if p.get("smode", "plain") != "plain":
+                fns[name]["src"] = scoped_source(p, name, styles[name], ALTMOD)
+                fns[name]["srcx"] = scoped_source(p, name, styles[name], ALTMOD + "x")
         for p in chunk:
             p["shadow"] = mode
-        src = render.module_src(fns, mconsts, imports=[LIBMOD], styles=styles)
+        src = render.module_src(fns, mconsts, imports=[LIBMOD, ALTMOD], styles=styles)
         render.write_module(d, p["mod"], src)
-        srcx = render.module_src(fns, mconsts, imports=[LIBMOD + "x as " + LIBMOD], styles=styles, exact=True)
+        srcx = render.module_src(fns, mconsts, imports=[LIBMOD + "x as " + LIBMOD, ALTMOD + "x as " + ALTMOD], styles=styles,
+                                 exact=True)
         render.write_module(d, p["mod"].replace("c06m_", "c06x_"), srcx)
 
 
@@ -159,7 +197,16 @@ def sym_value(expr, subs: dict, exact: bool):
     import sympy
 
     try:
-        if exact:
+        if exact == "snap":
+            # coefficients that sympy folded into 15-digit Floats (1/6.0 -> 0.166666666666667) are taken as the
+            # small fraction they stand for; used only to recognise a mismatch as an artefact of Float rounding
+            def snap(f):
+                fr = Fraction(float(f)).limit_denominator(10**6)
+                return sympy.Rational(fr.numerator, fr.denominator) if abs(float(fr) - float(f)) <= 1e-12 * max(1.0, abs(float(f))) \
+                    else sympy.Rational(f)
+            expr = expr.xreplace({f: snap(f) for f in expr.atoms(sympy.Float)})
+            sub = {k: sympy.Rational(v.numerator, v.denominator) for k, v in subs.items()}
+        elif exact:
             expr = expr.xreplace({f: sympy.Rational(f) for f in expr.atoms(sympy.Float)})
             sub = {k: sympy.Rational(v.numerator, v.denominator) for k, v in subs.items()}
         else:
@@ -231,9 +278,9 @@ def check_translation(fn, params: list[str], names: list[str], pts: list[dict]) 
         if agrees(v, pt["v"]):
             continue
         vx = sym_value(expr, subs, exact=True)
-        if agrees(vx, pt["v"]):
-            floatfrag += 1
-            continue
+        if agrees(vx, pt["v"]) or agrees(sym_value(expr, subs, exact="snap"), pt["v"]):
+            floatfrag += 1          # float-fragile: a comparison sits exactly on its boundary and the 15-digit Float
+            continue                # coefficients of the expression round to the other side; excluded, counted
         bad.append({"point": {p: str(x) for p, x in env.items()}, "expected": str(pt["v"]),
                     "float_eval": str(v[1]), "exact_eval": str(vx[1])})
     return {"expr": str(expr)[:300], "checked": checked, "bad": bad, "floatfrag": floatfrag,
@@ -421,6 +468,7 @@ CONSTANTS
     BoolOn = {boolon}
     IteOn = {ite}
     CallOn = {calls}
+    ScopeModes = {scopes}
     CallModes = {modes}
     AugOn = {aug}
     PassOn = {passon}
@@ -439,28 +487,29 @@ INVARIANTS EmitLib PWTheorem LibTheorem WellFormedAlways
 """
 
 ALLMODES = '{"pos", "kw", "kwrev", "mix", "def", "defkw"}'
+ALLSCOPES = '{"plain", "import", "closure", "both"}'
 PROFILES = {
     # every construct the translator claims to support, shallow expressions: control flow dominates
     "core1": dict(arities="{1, 2}", locals='{"y"}', consts='{"K"}', un='{"neg"}', bin='{"add", "sub", "mul", "div"}',
-                  chains="TRUE", boolon="{}", ite="TRUE", calls='{"sub2", "pick", "loc", "ratio", "dflt"}', modes=ALLMODES, minst=2, depth=1, aug="{}", loop="FALSE", chain="FALSE", passon="FALSE", maxst=4),
+                  chains="TRUE", boolon="{}", ite="TRUE", calls='{"sub2", "pick", "loc", "ratio", "dflt"}', modes=ALLMODES, scopes=ALLSCOPES, minst=2, depth=1, aug="{}", loop="FALSE", chain="FALSE", passon="FALSE", maxst=4),
     "core2": dict(arities="{1, 2}", locals='{"y", "z"}', consts='{"K", "H"}', un='{"neg"}',
                   bin='{"add", "sub", "mul", "div", "pow"}', chains="TRUE", boolon="{}", ite="TRUE",
-                  calls='{"sub2", "subxy", "pick", "loc", "nest", "kmul", "ratio", "dflt"}', modes=ALLMODES, minst=3, depth=2, aug="{}",
+                  calls='{"sub2", "subxy", "pick", "loc", "nest", "kmul", "ratio", "dflt"}', modes=ALLMODES, scopes=ALLSCOPES, minst=3, depth=2, aug="{}",
                   loop="FALSE", chain="FALSE", passon="TRUE", maxst=4),
     # just outside the subset: assignment to a parameter, augmented assignment, while / for loops (must be refused)
     "outside": dict(arities="{1, 2}", locals='{"y", "a"}', consts='{"K"}', un='{"neg"}', bin='{"add", "sub", "mul"}',
-                    chains="FALSE", boolon="{}", ite="FALSE", calls='{"sub2"}', modes='{"pos", "kwrev"}', minst=3, depth=1,
+                    chains="FALSE", boolon="{}", ite="FALSE", calls='{"sub2"}', modes='{"pos", "kwrev"}', scopes='{"plain", "closure"}', minst=3, depth=1,
                     aug='{"add", "mul", "sub"}', loop="TRUE", chain="TRUE", passon="TRUE", maxst=4),
     # guards: up to 6 statements, nested ifs / empty (pass) branches that fall through without binding anything,
     # followed by statements that re-bind a name (a local or a parameter) from its own old value
     "guard": dict(arities="{1, 2}", locals='{"y", "a"}', consts="{}", un="{}", bin='{"sub", "mul", "div"}',
-                  chains="FALSE", boolon="{}", ite="FALSE", calls="{}", modes='{"pos"}', minst=3, depth=1, aug="{}", loop="FALSE",
+                  chains="FALSE", boolon="{}", ite="FALSE", calls="{}", modes='{"pos"}', scopes='{"plain"}', minst=3, depth=1, aug="{}", loop="FALSE",
                   chain="FALSE", passon="TRUE", maxst=6),
     # the whole grammar (min / max / abs / and / or / not are refused by the translator today)
     "full": dict(arities="{2, 3}", locals='{"y", "z"}', consts='{"K", "H"}', un='{"neg", "abs"}',
                  bin='{"add", "sub", "mul", "div", "pow", "floordiv", "mod", "min", "max"}', chains="TRUE",
                  boolon='{"and", "or", "not"}', ite="TRUE",
-                 calls='{"sub2", "subxy", "pick", "loc", "nest", "kmul", "ratio", "dflt"}', modes=ALLMODES, minst=2, depth=2,
+                 calls='{"sub2", "subxy", "pick", "loc", "nest", "kmul", "ratio", "dflt"}', modes=ALLMODES, scopes=ALLSCOPES, minst=2, depth=2,
                  aug='{"add"}', loop="TRUE", chain="TRUE", passon="TRUE", maxst=4),
 }
 
@@ -482,17 +531,18 @@ def generate(ctx: Ctx, rep: Report) -> tuple[list[dict], dict, dict]:
     runs = []
     if ctx.quick:
         runs.append(("Translate_small.cfg", None, "exhaustive: all programs <= 3 statements, <= 6 expression nodes"))
-        sims = [("core1", 40), ("core2", 22), ("guard", 30), ("outside", 20), ("full", 12)]
+        sims = [("core1", 80), ("core2", 44), ("guard", 60), ("outside", 40), ("full", 24)]      # -simulate num is per worker (8)
     else:
         runs.append(("Translate_medium.cfg", None, "exhaustive: all programs <= 3 statements, <= 7 expression nodes"))
-        sims = [("core1", 240), ("core2", 160), ("guard", 160), ("outside", 80), ("full", 80)]
+        sims = [("core1", 480), ("core2", 320), ("guard", 320), ("outside", 160), ("full", 160)]
     progs, lib, consts = {}, None, None
     for cfg, _, what in runs:
-        res = ctx.tlc("Translate.tla", cfg, timeout=1500)
+        res = ctx.tlc("Translate.tla", cfg, timeout=1500, workers=WORKERS)
         rep.add_tlc(res, f"{what}; PWTheorem + emission")
         for p in res.payloads:
             if p["t"] == "lib":
                 lib, consts = p["lib"], {c: render.from_json_value(v) for c, v in p["consts"].items()}
+                _STATE["alt"] = p.get("alt", {})
             else:
                 p["key"] = prog_key(p)
                 p["origin"] = cfg
@@ -501,7 +551,7 @@ def generate(ctx: Ctx, rep: Report) -> tuple[list[dict], dict, dict]:
     for j, (prof, num) in enumerate(sims):
         cfg = ctx.write_cfg(f"sim_{prof}.cfg", SIM_BASE.format(**PROFILES[prof]))
         res = ctx.tlc("Translate.tla", str(cfg), tag=f"sim_{prof}", simulate=f"num={num}", depth=200,
-                      seed=ctx.seed + j, timeout=1500)
+                      seed=ctx.seed + j, timeout=1500, workers=WORKERS)
         rep.add_tlc(res, f"-simulate profile {prof}: PWTheorem + emission")
         for p in res.payloads:
             if p["t"] == "prog":
@@ -533,7 +583,8 @@ def run(ctx: Ctx) -> int:
         "CPython executes the rendered source; its exact (Fraction) run must reproduce Run at every point",
         "points where CPython's float result differs from the exact result are excluded as fragile (counted)",
         "a translated expression is evaluated with floats first and, on disagreement, exactly (Floats "
-        "rationalised); only a disagreement of both is a mismatch",
+        "rationalised, then with Float coefficients snapped to the small fraction they stand for); only a "
+        "disagreement of all is a mismatch, agreement of a later stage counts the point as float-fragile",
         "when expr.subs raises or gives no number because sympy evaluates pieces / conjuncts the first-true-wins "
         "reading never needs (zoo < 1 in a later piece), the expression is evaluated lazily (Kleene logic for And/Or)",
     ]
@@ -560,7 +611,7 @@ def run(ctx: Ctx) -> int:
     render_all(ctx, progs, lib, consts)
     _STATE["dir"], _STATE["consts"] = ctx.work / "mods", consts
     t0 = time.time()
-    results = pmap(work, progs, chunk=25)
+    results = pmap(work, progs, procs=WORKERS, chunk=25)
     rep.notes["timing"]["replay_s"] = round(time.time() - t0, 1)
     t0 = time.time()
     judge(ctx, rep, progs, results, lib)
@@ -600,7 +651,9 @@ def judge(ctx: Ctx, rep: Report, progs: list[dict], results: list[dict], lib: di
                 stats["mismatches"] += 1
                 stats["mismatches_by_origin"][p["origin"]] = stats["mismatches_by_origin"].get(p["origin"], 0) + 1
                 scn = {"params": p["params"], "body": p["body"], "calls": p["calls"], "consts": p["consts"],
-                       "style": p["style"], "shadow": p["shadow"], "names": rr["names"], "tag": rr["tag"], "source": src,
+                       "style": p["style"], "shadow": p["shadow"], "smode": p.get("smode", "plain"),
+                       "imports": p.get("imports", []), "cells": p.get("cells", []), "alt": _STATE.get("alt", {}),
+                       "names": rr["names"], "tag": rr["tag"], "source": src,
                        "lib": lib, "consts_values": {c: str(v) for c, v in _STATE["consts"].items()},
                        "pts": [{"env": o["env"], "st": o["st"], "v": o["v"]} for o in p["pts"]]}
                 detail = {"expression": rr["expr"], "first_bad_points": rr["bad"][:3], "bad_points": len(rr["bad"]),
@@ -630,7 +683,9 @@ def replay(ctx: Ctx, doc: dict) -> int:
         return c06_oracle.replay(ctx, doc)
     lib, consts = scn["lib"], {c: Fraction(v) for c, v in scn["consts_values"].items()}
     p = {"params": scn["params"], "body": scn["body"], "calls": scn["calls"], "consts": scn["consts"], "pts": scn["pts"],
-         "origin": "replay", "shadow": scn.get("shadow", 0)}
+         "origin": "replay", "shadow": scn.get("shadow", 0), "smode": scn.get("smode", "plain"),
+         "imports": scn.get("imports", []), "cells": scn.get("cells", [])}
+    _STATE["alt"] = scn.get("alt", {})
     p["key"] = prog_key(p)
     p["use_rens"] = [{"tag": scn["tag"], "names": scn["names"]}]
     render_all(ctx, [p], lib, consts)
